@@ -26,6 +26,7 @@ type RunSpec struct {
 	Overrides map[string]string `json:"overrides"`
 	TimeoutMS int               `json:"timeout_ms"`
 	MaxSteps  int64             `json:"max_steps"`
+	HangViol  bool              `json:"hang_is_violation"`
 	Bound     string            `json:"bound"`
 	Tries     int               `json:"replay_tries"`
 	Workers   int               `json:"workers"`
@@ -199,7 +200,11 @@ func (r *replayer) run(rf *ReplayFile, vecPath string) (bool, string, error) {
 	}
 	var out []byte
 	for i := 0; i < tries; i++ {
-		cmd := exec.Command(bin, "-test.run", "^TestSVReplay$", "-test.v", "-test.timeout", "120s")
+		limit := "120s"
+		if rf.Kind == "hang" {
+			limit = "20s" // a clean replay takes well under a second
+		}
+		cmd := exec.Command(bin, "-test.run", "^TestSVReplay$", "-test.v", "-test.timeout", limit)
 		cmd.Dir = pkgDir(&loadSpec{Dir: r.dir, Pkg: rf.Pkg})
 		cmd.Env = append(os.Environ(), "SV_REPLAY="+vecPath, "SV_FN="+rf.Fn)
 		out, _ = cmd.CombinedOutput()
@@ -229,6 +234,13 @@ func observed(rf *ReplayFile, out string) bool {
 			return false
 		}
 		return strings.Contains(out, "SV-PANIC") || strings.Contains(out, "panic:") || strings.Contains(out, "fatal error:")
+	case "hang":
+		// the real code, run natively on the witness, is still running when the
+		// wall-clock limit expires (and it had not left the assumed input space)
+		if strings.Contains(out, "SV-ASSUME-FAILED") || strings.Contains(out, "SV-DONE") {
+			return false
+		}
+		return strings.Contains(out, "panic: test timed out")
 	case "clean":
 		if strings.Contains(out, "SV-ASSUME-FAILED") {
 			return false
@@ -262,6 +274,8 @@ func checkMain(args []string) {
 		return
 	}
 	only := ""
+	probe := map[string]int{}
+	probeWall := 0
 	verbose := os.Getenv("SYMGO_VERBOSE") != ""
 	for i := 2; i < len(args); i++ {
 		switch args[i] {
@@ -270,6 +284,19 @@ func checkMain(args []string) {
 			i++
 		case "-v":
 			verbose = true
+		case "-p": // probe: override a harness parameter (results go to scratch, not to evidence/)
+			var k string
+			var v int
+			kv := strings.SplitN(args[i+1], "=", 2)
+			if len(kv) == 2 {
+				k = kv[0]
+				fmt.Sscan(kv[1], &v)
+				probe[k] = v
+			}
+			i++
+		case "-maxwall":
+			fmt.Sscan(args[i+1], &probeWall)
+			i++
 		}
 	}
 	if tier != "quick" && tier != "thorough" {
@@ -298,6 +325,8 @@ func checkMain(args []string) {
 	outRoot := verifRoot
 	if dir != "/repo" {
 		outRoot = filepath.Join(verifRoot, "replays", "_scratch", filepath.Base(dir))
+	} else if len(probe) > 0 || probeWall > 0 {
+		outRoot = filepath.Join(verifRoot, "replays", "_scratch", fmt.Sprintf("probe-%d", os.Getpid()))
 	}
 	replayDir := filepath.Join(outRoot, "replays", id)
 	os.RemoveAll(replayDir)
@@ -358,8 +387,18 @@ func checkMain(args []string) {
 		if params == nil {
 			params = map[string]int{}
 		}
+		if len(probe) > 0 {
+			np := map[string]int{}
+			for k, v := range params {
+				np[k] = v
+			}
+			for k, v := range probe {
+				np[k] = v
+			}
+			params = np
+		}
 		ls := &loadSpec{Dir: dir, Pkg: rs.Pkg, Files: rs.Files, Fn: rs.Fn, Params: params, Overrides: rs.Overrides,
-			TimeoutMS: rs.TimeoutMS, MaxSteps: rs.MaxSteps, XCheck: tier == "thorough", Solver: rs.Solver}
+			TimeoutMS: rs.TimeoutMS, MaxSteps: rs.MaxSteps, HangViol: rs.HangViol, XCheck: tier == "thorough", Solver: rs.Solver}
 		if ls.Pkg == "" {
 			ls.Pkg = "."
 		}
@@ -390,6 +429,9 @@ func checkMain(args []string) {
 		}
 		if rs.MaxWallS > 0 {
 			maxWall = time.Duration(rs.MaxWallS) * time.Second
+		}
+		if probeWall > 0 {
+			maxWall = time.Duration(probeWall) * time.Second
 		}
 		res := explore(pl, ls, exploreOpts{Workers: workers, Samples: 3, MaxViol: 4, Verbose: verbose, MaxWall: maxWall})
 		outs = append(outs, runOut{rs, res})
